@@ -440,7 +440,17 @@ pub fn replay_arith(case: &Value, rep: &mut Report, rng: &mut Rng) {
                         rep.checks += 1;
                         // bit for bit (the sign of a zero included)
                         let got = flat(&fr);
-                        let bad = if got.len() != want.len() { Some(0) } else { (0..got.len()).find(|k| got[*k].to_bits() != want[*k].to_bits() && !(got[*k].is_nan() && want[*k].is_nan())) };
+                        // (the mean over three or more tensors is a sum of more than two terms: its order is not prescribed, so it is
+                        // compared within a rounding bound; everything else is a single IEEE operation per element)
+                        let several = op == "mean" && bs.len() >= 2;
+                        let agree = |g: f32, w: f32| {
+                            if several {
+                                (g.is_nan() && w.is_nan()) || g == w || (g - w).abs() <= 4.0 * f32::EPSILON * w.abs().max(f32::MIN_POSITIVE) || (!w.is_finite() || !g.is_finite())
+                            } else {
+                                g.to_bits() == w.to_bits() || (g.is_nan() && w.is_nan())
+                            }
+                        };
+                        let bad = if got.len() != want.len() { Some(0) } else { (0..got.len()).find(|k| !agree(got[*k], want[*k])) };
                         if let Some(k) = bad {
                             rep.mismatch("C15", "float_value", &id, json!({"step": i, "op": op, "element": k, "observed": got.get(k).map(|v| format!("{:e}", v)), "expected": want.get(k).map(|v| format!("{:e}", v)),
                                                                             "operand": a.get(k).map(|v| format!("{:e}", v))}), case);
